@@ -17,7 +17,12 @@ sed -i "s|/repo/|$WT/|g" $HS/Cargo.toml
 mkdir -p $HS/.cargo
 printf '[net]\noffline = true\n[build]\ntarget-dir = "/tmp/tcss-pinned-target"\n' > $HS/.cargo/config.toml
 ( cd $HS && cargo build --release --offline )
-TCSS_VERIF_DIR=/verif /tmp/tcss-pinned-target/release/tcss-verif gen-corpus /verif/fixtures/pinned
+# "tools/gen_corpus.sh extra": only add the hand-scripted legacy directories to the existing corpus
+if [ "${1:-}" = "extra" ]; then
+  TCSS_VERIF_DIR=/verif /tmp/tcss-pinned-target/release/tcss-verif gen-corpus-extra /verif/fixtures/pinned
+else
+  TCSS_VERIF_DIR=/verif /tmp/tcss-pinned-target/release/tcss-verif gen-corpus /verif/fixtures/pinned
+fi
 git -C /repo worktree remove --force $WT
 rm -rf $HS /tmp/tcss-pinned-target $WT
 git -C /repo worktree prune
